@@ -271,6 +271,10 @@ def verify_row(F, fn_, kind):
         srt = o.calls(r"::sort(_unstable)?(_by|_by_key)?$")
         app = o.calls(r"^std::vec::Vec::append$")
         ok = bool(srt) and all(any(o.postdominates(sb, ab) for sb, _ in srt) for ab, _ in app)
+        # ... and on every way out: an early return hands back a vector that was collected from a hash map and never
+        # sorted (`if fused.is_empty() { return unfused }`)
+        exits_ = [ex for ex in o.exits() if ex in o.normal_blocks()]
+        ok = ok and bool(exits_) and all(any(o.dominates(sb, ex) for sb, _ in srt) for ex in exits_)
         # sort key is the rule id
         kc = [c for c in F.closures_of("optimizer::optimize")]
         key_is_id = any(any(isinstance(p, dict) and p.get("n") == "id" for b, i, s in c.statements()
